@@ -35,6 +35,8 @@ pub struct SoloCfg {
     pub with_payload: bool,
     /// sync requests from another member for every block of the universe
     pub with_sync_requests: bool,
+    /// committee stakes (a listed member with stake 0 has no voting rights)
+    pub stakes: Vec<u32>,
 }
 
 pub struct Uni2 {
@@ -45,7 +47,7 @@ pub struct Uni2 {
 pub fn craft_children(s: &Search, sc: &SoloCfg, u: &mut Uni2) -> bool {
     let w = &s.world;
     let t = sc.node;
-    let others: Vec<usize> = (0..w.n()).filter(|i| *i != t).collect();
+    let others: Vec<usize> = (0..w.n()).filter(|i| *i != t && w.stakes[*i] > 0).collect();
     let mut grew = false;
     loop {
         let mut new_blocks: Vec<Block> = Vec::new();
@@ -59,8 +61,8 @@ pub fn craft_children(s: &Search, sc: &SoloCfg, u: &mut Uni2) -> bool {
             };
             for r in (pround + 1)..=sc.max_round {
                 let leader = w.ref_leader(r);
-                if leader == t {
-                    continue; // the node's own blocks come from the node itself
+                if leader == t || w.stakes[leader] == 0 {
+                    continue; // the node's own blocks come from the node itself; a member without voting rights cannot propose
                 }
                 let mut tcs: Vec<Option<TC>> = Vec::new();
                 if r == pround + 1 {
@@ -105,7 +107,7 @@ pub fn craft_children(s: &Search, sc: &SoloCfg, u: &mut Uni2) -> bool {
 pub fn menu(s: &Search, sc: &SoloCfg, u: &Uni2, stale_blocks: &[Block]) -> Vec<Ev> {
     let w = &s.world;
     let t = sc.node;
-    let others: Vec<usize> = (0..w.n()).filter(|i| *i != t).collect();
+    let others: Vec<usize> = (0..w.n()).filter(|i| *i != t && w.stakes[*i] > 0).collect();
     let mut evs: Vec<Ev> = vec![Ev::Timer];
     if sc.with_payload {
         evs.push(Ev::Batch(0));
@@ -183,6 +185,52 @@ pub fn menu(s: &Search, sc: &SoloCfg, u: &Uni2, stale_blocks: &[Block]) -> Vec<E
         let mut tmo = w.timeout(others[0], 1, QC::genesis());
         tmo.author = w.name(t);
         push(ConsensusMessage::Timeout(tmo), &mut evs);
+        // blocks by the round's leader carrying a ONE-signature QC for an existing block, with and
+        // (in payload configurations) without their payload being available
+        let mut per_round: Vec<&Block> = Vec::new();
+        for b in bs.iter() {
+            // only blocks whose whole ancestry is plain (no payload, no TC)
+            let mut plain = true;
+            let mut cur: &Block = b;
+            loop {
+                if !cur.payload.is_empty() || cur.tc.is_some() {
+                    plain = false;
+                    break;
+                }
+                if crate::world::is_genesis_qc(&cur.qc) {
+                    break;
+                }
+                match u.blocks.values().find(|x| x.digest() == cur.qc.hash && x.payload.is_empty()) {
+                    Some(p) => cur = p,
+                    None => {
+                        plain = false;
+                        break;
+                    }
+                }
+            }
+            if plain && !per_round.iter().any(|x| x.round == b.round) {
+                per_round.push(*b);
+            }
+        }
+        for b in per_round.iter().take(3) {
+            let r = b.round + 1;
+            let leader = w.ref_leader(r);
+            if leader != t && r <= sc.max_round + 1 {
+                let fake = w.qc(b, &[others[0]]);
+                push(ConsensusMessage::Propose(w.block(leader, r, fake.clone(), None, vec![])), &mut evs);
+                if sc.with_payload {
+                    push(ConsensusMessage::Propose(w.block(leader, r, fake, None, vec![super::node::payload_digest(0)])), &mut evs);
+                }
+            }
+        }
+        // correctly signed messages of a listed member WITHOUT voting rights (stake 0)
+        if let Some(z) = (0..w.n()).find(|i| w.stakes[*i] == 0 && *i != t) {
+            for b in per_round.iter().take(2) {
+                push(ConsensusMessage::Vote(w.vote(z, b)), &mut evs);
+            }
+            push(ConsensusMessage::Timeout(w.timeout(z, 1, QC::genesis())), &mut evs);
+            push(ConsensusMessage::Timeout(w.timeout(z, 2, QC::genesis())), &mut evs);
+        }
         // a TC below quorum
         push(ConsensusMessage::TC(w.tc(2, &[(others[0], 0), (others[1], 0)])), &mut evs);
         let _ = Digest::default();
@@ -194,7 +242,7 @@ pub fn run(rep: &mut Report, property: &str, cfgname: &str, sc: SoloCfg) {
     let t0 = Instant::now();
     let cfg = Cfg {
         name: format!("solo({},node=n{},R={})", cfgname, sc.node, sc.max_round),
-        stakes: vec![1, 1, 1, 1],
+        stakes: sc.stakes.clone(),
         honest: vec![sc.node],
         byz: None,
         strict: true,
@@ -218,6 +266,11 @@ pub fn run(rep: &mut Report, property: &str, cfgname: &str, sc: SoloCfg) {
         generations += 1;
         craft_children(&s, &sc, &mut u);
         let evs = menu(&s, &sc, &u, &[]);
+        if std::env::var("HSV_DEBUG").is_ok() {
+            for e in &evs {
+                eprintln!("menu: {}", s.describe_ev(e));
+            }
+        }
         // level-synchronous BFS to depth sc.max_depth with the current menu (memo keeps re-runs cheap)
         visited.lock().unwrap().clear();
         visited.lock().unwrap().insert(l0);
@@ -340,5 +393,6 @@ pub fn default_cfg(node: usize, r: Round, tier: Tier) -> SoloCfg {
         with_invalid: true,
         with_payload: false,
         with_sync_requests: false,
+        stakes: vec![1, 1, 1, 1],
     }
 }
